@@ -59,6 +59,28 @@ def run(ctx):
             nio += 1
             ok = False
             how = []
+            # a hand-written `?`: `match r { Ok(..) => .., Err(e) => return Err(e.into()) }` - every error the Err arm returns is the
+            # payload of this very result passed through From<io::Error> for the crate's error type
+            sw = q._manual_question_mark(b, c.dest['l']) if not c.dest['p'] else None
+            if sw is not None:
+                tm_ = b.blocks[sw]['term']
+                err_e = [s_ for v_, s_ in tm_['targets'] if v_ == 1] or [tm_['otherwise']]
+                ds_ = [d for e_ in err_e for d in q.defs_in(b, b.cfg.reachable_from(e_)) if d[0] == 0 and not d[1]]
+
+                def converted(t_):
+                    if not (t_[0] == 'agg' and t_[2] == 'Err'):
+                        return False
+                    p_ = dict(t_[3]).get('0')
+                    if not (p_ and p_[0] == 'call' and ('convert::From' in p_[1] or p_[1].endswith('Into::into')) and 'AsepriteParseError' in p_[1] + b.locals[0]['ty']):
+                        return False
+                    a_ = p_[2][0]
+                    return a_[0] == 'field' and a_[1][0] == 'variant' and a_[1][2] == 'Err' and a_[1][1][0] == 'call' and a_[1][1][3] == (b.name, c.bb)
+                ok = bool(ds_) and all(converted(a_) for d in ds_ for a_ in alts(d[2]))
+                ctx.inst('Y3', '%s -> %s' % (b.name.split('asefile::')[-1], c.callee.split('::')[-1]), ok,
+                         'io::Result of %s is matched by hand; its Err arm returns %s' % (c.callee, 'Err(From<io::Error>::from(e)) of that error' if ok else
+                                                                                        'something other than the converted error'),
+                         c.span, key=ctx.key(b.name, 'Y3', 'io-result', c.callee))
+                continue
             for kind, ubb, obj in q.uses(b, c.dest['l']):
                 if kind == 'drop':
                     continue
